@@ -285,6 +285,7 @@ func fmaLayers(tier string) []Layer {
 	{
 		vals := []*Opnd{mkInt64(3, 0, 3, 0), mkInt64(-12, -1, 3, 0), mkInt64(25, 1, 3, 0), mkInt64(-7, -2, 3, 0), mkInt64(999, 0, 3, 0), mkInt64(4, 0, 3, 0), mkInt64(-12, 0, 3, 0)}
 		vals = append(vals, specials(3)...)
+		vals = append(vals, mkSpecial(fZero, false, 3, 0).withStale(3), mkSpecial(fInf, true, 3, 0).withStale(1)) // specials in variables with a history
 		parts := partitions(3)
 		layers = append(layers, Layer{
 			Name:   "F4-aliasing",
